@@ -185,7 +185,11 @@ def check(pid, tier, spec):
         each = u.get("fix_each")  # {"name": count}: one job per value of a vChoice, for load balance
         if each:
             (fname, count), = each.items()
-            for v in range(count):
+            values = list(range(count))
+            if tier == "quick" and u.get("quick_only_values"):
+                step = max(1, count // u["quick_only_values"])
+                values = values[::step]
+            for v in values:
                 u2 = dict(u)
                 u2["args"] = list(u.get("args", [])) + ["-fix", "%s=%d" % (fname, v)]
                 u2["label"] = "%s=%d" % (fname, v)
